@@ -452,6 +452,11 @@ def build():
     in4 = inner("In4", [Field("need", "plain", "long", "u8"), Field("extra", "opt", "long", "str")])
     top("F4", [Flatten("maybe", in4, opt=True), Field("verbose", "bool", "short", None)])
     top("F5", [Flatten("maybe_mid", mid, opt=True), Field("other", "opt", "long", "u8")])
+    # an optional flatten whose members carry no default: `try_update_from` on a value that already holds Some(inner)
+    # updates the members in place (theorem C15_update_unoccurring_untouched_opt)
+    in6 = inner("In6", [Field("echo", "opt", "long", "u8"), Field("golf", "opt", "long", "u8"),
+                        Field("hotel", "vec", "long", "str")])
+    top("F6", [Field("tango", "opt", "long", "str"), Flatten("maybe", in6, opt=True)])
 
     # ---- subcommands
     in5 = inner("In5", [Field("size", "plain", "long", "u8"), Field("tags", "vec", "long", "str")])
